@@ -12,6 +12,7 @@ use std::collections::BTreeMap;
 use std::io::Write;
 
 pub mod forms;
+pub mod probe;
 pub mod track;
 
 /// SplitMix64: every random choice of a run derives from one state.
